@@ -5,6 +5,7 @@ import (
 
 	"google.golang.org/protobuf/types/known/durationpb"
 
+	meshconfig "istio.io/api/mesh/v1alpha1"
 	networking "istio.io/api/networking/v1alpha3"
 	"istio.io/istio/pilot/pkg/model"
 	registryprovider "istio.io/istio/pilot/pkg/serviceregistry/provider"
@@ -228,9 +229,44 @@ func moreCases() []*caseT {
 		}
 	})
 
+	// ---------------------------------------------------------------- Sidecar with exact, namespaced egress hosts only
+
+	// The fast path of the sidecar scope (every egress host is "namespace/exact-host"): one host imported
+	// from several namespaces, none of them the Sidecar's own, all services of equal age.
+	add("sidecar-exact-hosts", "same-host-three-namespaces", func() (cfgs, cfgs) {
+		shared := "shared.example.com"
+		base := cfgs{selfSE()}
+		mk := func(ns, ip string, ports ...*networking.ServicePort) config.Config {
+			return se(ns, "shared", []string{shared}, ports, []*networking.WorkloadEntry{ep(ip, "r1/z1/s1", kv("from", ns))})
+		}
+		return base, cfgs{
+			mk("ns3", "10.30.0.3", port(80, "http", "HTTP")),
+			mk("ns2", "10.20.0.2", port(80, "http", "HTTP"), port(8080, "http-b", "HTTP")),
+			sidecar("ns1", "default", nil, egress("ns3/"+shared, "ns4/"+shared, "ns2/"+shared, "ns1/"+selfHost)),
+			mk("ns4", "10.40.0.4", port(80, "http", "HTTP"), port(443, "tls", "TLS")),
+			dr("ns3", "shared", shared, tpConn(3), []*networking.Subset{subset("v1", kv("from", "ns3"), nil)}),
+		}
+	})
+	// The same with two hosts, each in two namespaces, and an egress listener with a port.
+	add("sidecar-exact-hosts", "two-hosts-port-listener", func() (cfgs, cfgs) {
+		base := cfgs{selfSE()}
+		return base, cfgs{
+			svc("ns3", "h1", h1, "10.10.3"),
+			svc("ns2", "h1", h1, "10.10.2"),
+			func() config.Config {
+				c := sidecar("ns1", "default", nil,
+					egressPort(80, "http", "HTTP", "ns3/"+h1, "ns2/"+h1, "ns3/"+h2, "ns2/"+h2),
+					egress("ns2/"+h2, "ns3/"+h2, "ns2/"+h1, "ns3/"+h1))
+				return c
+			}(),
+			svc("ns2", "h2", h2, "10.20.2"),
+			svc("ns3", "h2", h2, "10.20.3"),
+		}
+	})
+
 	// ---------------------------------------------------------------- two registries
 
-	reg := add("two-registries", "memory-and-serviceentry", func() (cfgs, cfgs) {
+	regBuild := func() (cfgs, cfgs) {
 		base := cfgs{selfSE(), gw1()}
 		k8sHost := "k8s.ns1.svc.cluster.local"
 		return base, cfgs{
@@ -240,8 +276,8 @@ func moreCases() []*caseT {
 			dr("ns1", "k8s", k8sHost, tpConn(5), []*networking.Subset{subset("v1", kv("version", "v1"), nil)}),
 			se("ns1", "mock-host", []string{"mock.ns2.example"}, []*networking.ServicePort{port(80, "http", "HTTP")}, []*networking.WorkloadEntry{ep("10.34.0.3", "r1/z1/s1", nil)}),
 		}
-	})
-	reg.Registry = func() ([]*model.Service, []*model.ServiceInstance) {
+	}
+	regRegistry := func() ([]*model.Service, []*model.ServiceInstance) {
 		mk := func(hostname, ns, name, vip string, prov registryprovider.ID) *model.Service {
 			return &model.Service{
 				Hostname: hostNameOf(hostname), DefaultAddress: vip, CreationTime: t0, Resolution: model.ClientSideLB,
@@ -263,6 +299,18 @@ func moreCases() []*caseT {
 			}
 		}
 		return []*model.Service{k8s, mock}, inst
+	}
+	add("two-registries", "memory-and-serviceentry", regBuild).Registry = regRegistry
+	// The same with the doubly registered host declared cluster-local: EDS takes only the shards of the
+	// proxy's own cluster, of which there are two (memory registry and ServiceEntry registry, one cluster id),
+	// with endpoints of both in one locality.
+	local := add("two-registries", "cluster-local", regBuild)
+	local.Registry = regRegistry
+	local.Mesh = func(m *meshconfig.MeshConfig) {
+		m.ServiceSettings = append(m.ServiceSettings, &meshconfig.MeshConfig_ServiceSettings{
+			Settings: &meshconfig.MeshConfig_ServiceSettings_Settings{ClusterLocal: true},
+			Hosts:    []string{"k8s.ns1.svc.cluster.local", "mock.ns2.example"},
+		})
 	}
 	return cs
 }
